@@ -4,6 +4,7 @@ import (
 	"context"
 	"errors"
 	"math/rand"
+	"sync/atomic"
 	"testing"
 	"time"
 
@@ -22,12 +23,16 @@ type srcMsg struct {
 type gateSrc struct {
 	q      chan srcMsg
 	r      *Run
+	idx    int
 	closes int
 	done   bool
 	doneK  int
+	busy   atomic.Int32 // Next calls in flight
 }
 
 func (s *gateSrc) Next(ctx context.Context) (int, error) {
+	s.busy.Add(1)
+	defer s.busy.Add(-1)
 	if s.done { // sticky end / error
 		if s.doneK == 2 {
 			return 0, errSrc
@@ -38,15 +43,15 @@ func (s *gateSrc) Next(ctx context.Context) (int, error) {
 	case m := <-s.q:
 		switch m.kind {
 		case 0:
-			s.r.emit(Ev{"ev": "taken", "v": m.v})
+			s.r.emit(Ev{"ev": "taken", "v": m.v, "i": s.idx})
 			return m.v, nil
 		case 1:
 			s.done, s.doneK = true, 1
-			s.r.emit(Ev{"ev": "srcend"})
+			s.r.emit(Ev{"ev": "srcend", "i": s.idx})
 			return 0, stream.End
 		default:
 			s.done, s.doneK = true, 2
-			s.r.emit(Ev{"ev": "srcerr"})
+			s.r.emit(Ev{"ev": "srcerr", "i": s.idx})
 			return 0, errSrc
 		}
 	case <-ctx.Done():
@@ -56,7 +61,7 @@ func (s *gateSrc) Next(ctx context.Context) (int, error) {
 
 func (s *gateSrc) Close() {
 	s.closes++
-	s.r.emit(Ev{"ev": "srcclose"})
+	s.r.emit(Ev{"ev": "srcclose", "i": s.idx})
 }
 
 type batchStep struct {
